@@ -548,8 +548,22 @@ def r_bitfield(cx, rec):
     rec.need(mask is not None and mask.get('val') == 0x80, 'bitfield/mask', ty + '::BYTE_MASK', None, 'BYTE_MASK must be 0x80')
     rec.need(bits is not None and bits.get('val') == 8, 'bitfield/bits', ty + '::BITS_IN_BYTE', None, 'BITS_IN_BYTE must be 8')
     # ceil(n/8) in to_vec and validate
-    for fn in (tv, impl_method(F, ty, 'validate')):
-        found = False
+    def count_fns(top):
+        # the function itself plus crate-local helpers whose result is compared with the payload length
+        out = [top]
+        for sb in top.switches():
+            e, ts, o = top.cond(sb)
+            if e[0] == 'binop' and e[1] in ('Eq', 'Ne'):
+                for a, b in ((e[2], e[3]), (e[3], e[2])):
+                    if a[0] == 'call' and a[4].get('name') == 'len':
+                        for x in mirq.walk(mirq.init_of(b), inl=False):
+                            if x[0] == 'call' and x[1] in F.fns and F.fns[x[1]] not in out:
+                                out.append(F.fns[x[1]])
+        return out
+
+    for top in (tv, impl_method(F, ty, 'validate')):
+      found = False
+      for fn in count_fns(top):
         for sb in fn.switches():
             e, ts, o = fn.cond(sb)
             if e[0] == 'binop' and e[1] == 'Eq' and cval(e[3]) == 0 and e[2][0] == 'binop' and e[2][1] == 'Rem' and cval(e[2][3]) == 8:
@@ -578,5 +592,5 @@ def r_bitfield(cx, rec):
                 rec.site(fn, sb, 'bytes = n/8 + %s when n%%8==0 else n/8 + %s' % (tv_true[-1:] , tv_false[-1:]))
                 if tv_true and tv_false and tv_true[-1] == 0 and tv_false[-1] == 1:
                     found = True
-        rec.need(found, 'bitfield/bytes-num/' + fn.name, fn, None,
-                 '%s: byte count must be n/8 when n%%8==0 and n/8+1 otherwise' % fn.name)
+      rec.need(found, 'bitfield/bytes-num/' + top.name, top, None,
+               '%s: byte count must be n/8 when n%%8==0 and n/8+1 otherwise' % top.name)
